@@ -206,10 +206,21 @@ def run_axis(ctx, classes, ax, seg):
                 setattr(old, uctl, getattr(cls.controllers[uctl].value_type, unit))
             objs.append(("loaded from a file with only %d controller values, then given the unit" % keep, old))
             ctx.label("short_file_then_unit")
+        import rv.errors
+
         for who, obj in objs:
             for v, want in ((lo, 0), (hi, 0x8000)):
                 p = ctl.pattern_value(obj, v)
                 ctx.check(p == want, "C10.pattern.unit_switch", "%s %s: pattern_value(%d)=%r, expected %d" % (ent, who, v, p, want), recipe={"entity": ent, "unit": unit, "value": v})
+                # the encodings do not depend on whether out-of-range values currently raise or warn
+                prev_flag = rv.errors.RAISE_CONTROLLER_VALUE_ERRORS
+                rv.errors.RAISE_CONTROLLER_VALUE_ERRORS = False
+                try:
+                    p2 = ctl.pattern_value(obj, v)
+                    vt2 = ctl.instance_value_type(obj)
+                finally:
+                    rv.errors.RAISE_CONTROLLER_VALUE_ERRORS = prev_flag
+                ctx.check(p2 == want and (vt2.min, vt2.max) == (lo, hi), "C10.pattern.lenient_mode", "%s %s, while value errors only warn: pattern_value(%d)=%r (expected %d), range %r..%r (expected %d..%d)" % (ent, who, v, p2, want, vt2.min, vt2.max, lo, hi), recipe={"entity": ent, "unit": unit, "value": v})
             if obj is not m2 and obj is not loaded:
                 setattr(obj, cname, hi)
                 ctx.check(obj.get_raw(cname) == hi - (lo if lo < 0 else 0), "C10.raw.unit_switch", "%s %s: %d stored as %r" % (ent, who, hi, obj.get_raw(cname)), recipe={"entity": ent, "unit": unit, "value": hi})
